@@ -2047,23 +2047,24 @@ func (ls *LState) Resume(th *LState, fn *LFunction, args ...LValue) (ResumeState
 	if th.Dead {
 		return ResumeError, newApiErrorS(ApiErrorRun, "can not resume a dead thread"), nil
 	}
-	th.Parent = ls
-	ls.G.CurrentThread = th
-	if !isstarted {
-		cf := th.stack.Last()
-		th.currentFrame = cf
-		th.SetTop(0)
-		for _, arg := range args {
-			th.Push(arg)
+	if err := ls.enterThread(th, func() {
+		if !isstarted {
+			cf := th.stack.Last()
+			th.currentFrame = cf
+			th.SetTop(0)
+			for _, arg := range args {
+				th.Push(arg)
+			}
+			cf.NArgs = len(args)
+			th.initCallFrame(cf)
+		} else {
+			for _, arg := range args {
+				th.Push(arg)
+			}
+			th.adjustResumedValues(len(args))
 		}
-		cf.NArgs = len(args)
-		th.initCallFrame(cf)
-		th.Panic = panicWithoutTraceback
-	} else {
-		for _, arg := range args {
-			th.Push(arg)
-		}
-		th.adjustResumedValues(len(args))
+	}); err != nil {
+		return ResumeError, err, nil
 	}
 	top := ls.GetTop()
 	threadRun(th)
@@ -2083,6 +2084,29 @@ func (ls *LState) Resume(th *LState, fn *LFunction, args ...LValue) (ResumeState
 		return ResumeOK, nil, ret
 	}
 	return ResumeYield, nil, ret
+}
+
+// enterThread makes th the running thread, resumed by ls, and runs setup, which moves the resume arguments into th.
+// An error raised by setup (th's registry cannot take the arguments) happens before threadRun protects the thread:
+// th is killed, ls is the running thread again and the error is returned.
+func (ls *LState) enterThread(th *LState, setup func()) (err *ApiError) {
+	th.Parent = ls
+	ls.G.CurrentThread = th
+	th.Panic = panicWithoutTraceback
+	defer func() {
+		if rcv := recover(); rcv != nil {
+			ls.G.CurrentThread = ls
+			th.Parent = nil
+			th.kill()
+			if aerr, ok := rcv.(*ApiError); ok {
+				err = aerr
+			} else {
+				err = newApiErrorS(ApiErrorPanic, fmt.Sprint(rcv))
+			}
+		}
+	}()
+	setup()
+	return nil
 }
 
 func (ls *LState) Yield(values ...LValue) int {
